@@ -339,6 +339,70 @@ func runC02(c *Ctx) error {
 				"result": bigsString(res.gRes), "max_fragment": fmt.Sprint(frag)})
 		}
 	}
+	return c02LongLivedOT(c)
+}
+
+// c02LongLivedOT: one OT object per PEER, kept over several sessions (each session on a new
+// connection; Garbler/Evaluator re-initialise the OT as sender/receiver at their start), with
+// the peers taking turns as garbler and evaluator: A garbles, B garbles, A garbles twice, B
+// garbles.  Every session must end with both parties holding f(x, y).
+func c02LongLivedOT(c *Ctx) error {
+	// CO and RSA objects can be initialised again, in either role; an ot.COT object serves one
+	// initialisation only ("already initialized"), so it cannot outlive a session
+	kinds := []otMaker{otKinds[0], otKinds[3]}
+	rounds := 1
+	if c.Thorough() {
+		rounds = 12
+	}
+	for round := 0; round < rounds; round++ {
+		for _, kind := range kinds {
+			r := c.rng.Fork()
+			otA, otB := kind.mk(r.Fork()), kind.mk(r.Fork())
+			roles := []bool{true, false, true, true, false} // true: A garbles
+			for si, aGarbles := range roles {
+				circ := GenCircuit(r, GenOpts{MinIn: 2, MaxIn: 12, MinGates: 4, MaxGates: 40, MaxOut: 6, Overwrite: true, TwoParty: true})
+				n0, n1 := int(circ.Inputs[0].Type.Bits), int(circ.Inputs[1].Type.Bits)
+				xy := make([]bool, n0+n1)
+				for k := range xy {
+					xy[k] = r.Bool()
+				}
+				otG, otE := otA, otB
+				if !aGarbles {
+					otG, otE = otB, otA
+				}
+				res := runSession(circ, bitsToBig(xy[:n0]), bitsToBig(xy[n0:]), &blockLog{r: r.Fork(), skipKey: true}, otG, otE, 0, r.Fork(), nil, 60*time.Second)
+				want := JoinBig(circ, TruthEval(circ, xy))
+				bad := ""
+				switch {
+				case res.stalled:
+					bad = "session stalled"
+				case res.gErr != nil:
+					bad = "garbler error: " + res.gErr.Error()
+				case res.eErr != nil:
+					bad = "evaluator error: " + res.eErr.Error()
+				case bigsString(res.gRes) != bigsString(want):
+					bad = "garbler result differs from plain evaluation"
+				case bigsString(res.eRes) != bigsString(want):
+					bad = "evaluator result differs from plain evaluation"
+				}
+				c.Hist("long-lived-ot:" + kind.name)
+				c.Eval(fmt.Sprintf("longlived|%s|%d|%d|%s|%s", kind.name, round, si, circuitText(circ), bitsString(xy)), true)
+				if bad != "" {
+					rp := c02Replay{Seed: c.Seed, Case: si, OT: kind.name, Circuit: circuitText(circ),
+						X: bitsString(xy[:n0]), Y: bitsString(xy[n0:]), GRes: bigsString(res.gRes), ERes: bigsString(res.eRes), Want: bigsString(want)}
+					if res.gErr != nil {
+						rp.GErr = res.gErr.Error()
+					}
+					if res.eErr != nil {
+						rp.EErr = res.eErr.Error()
+					}
+					c.Fail("c02:long-lived-ot:"+kind.name+":"+bad,
+						fmt.Sprintf("session %d of 5 on one pair of long-lived %s OT objects (roles so far, true = peer A garbles: %v): %s", si+1, kind.name, roles[:si+1], bad), rp)
+					break
+				}
+			}
+		}
+	}
 	return nil
 }
 
